@@ -4,6 +4,7 @@ import (
 	"bytes"
 	"context"
 	"encoding/json"
+	"errors"
 	"fmt"
 	"log/slog"
 	"net/url"
@@ -63,6 +64,9 @@ type c04Cfg struct {
 	Gomax    int         `json:"gomax"`
 	Gosched  int         `json:"gosched"`
 	SafeRec  bool        `json:"saferec"`
+	// SyncErr: every recording sink's Sync reports an error after doing its work (a terminal or pipe answering EINVAL): the
+	// error must not keep Logger.Sync from reaching the other branches
+	SyncErr bool `json:"syncerr,omitempty"`
 }
 
 type c04Act struct {
@@ -116,13 +120,15 @@ var (
 // The stream is appended in two halves with a yield in between, and the call is copied before: a line changing under
 // the sink's feet (buffer reused too early) or two unserialised writes show up as a torn stream.
 type c04Rec struct {
-	calls   [][]byte
-	stream  []byte
-	syncs   int
-	atSync  int
-	n       int
-	gosched int
-	safe    *sync.Mutex // non-nil: the recorder serialises its own field accesses (not the Write as a whole), so that
+	calls     [][]byte
+	stream    []byte
+	syncs     int
+	atSync    int
+	n         int
+	gosched   int
+	syncErr   bool
+	atLogSync int         // len(stream) when the final Logger.Sync had returned (-1: not taken)
+	safe      *sync.Mutex // non-nil: the recorder serialises its own field accesses (not the Write as a whole), so that
 	// unserialised Writes are observed as a torn stream instead of ending the process with a race report
 }
 
@@ -161,6 +167,9 @@ func (r *c04Rec) Sync() error {
 	}
 	r.syncs++
 	r.atSync = r.n // an unserialised Sync next to a Write is a race on n
+	if r.syncErr {
+		return errors.New("sync: invalid argument")
+	}
 	return nil
 }
 
@@ -289,6 +298,8 @@ func c04Build(cfg *c04Cfg, oracle bool) *c04World {
 		} else {
 			newRec := func(gosched int) (*c04Rec, string) {
 				rec, name := c04NewRec(gosched, cfg.SafeRec)
+				rec.syncErr = cfg.SyncErr
+				rec.atLogSync = -1
 				w.recNames = append(w.recNames, name)
 				return rec, name
 			}
@@ -768,6 +779,19 @@ func c04RunOnce(op *c04Op) (w *c04World, timeout bool, dump string) {
 		wg.Wait()
 		// BufferedWriteSyncer holds data until Sync/Stop: always drain before judging
 		_ = w.base.Sync()
+		// all goroutines are done and Logger.Sync has returned: every branch must hold everything already (the Stop below
+		// would hide a branch that Sync never reached)
+		for _, s := range w.sinks {
+			if s.rec != nil {
+				if s.rec.safe != nil {
+					s.rec.safe.Lock()
+				}
+				s.rec.atLogSync = len(s.rec.stream)
+				if s.rec.safe != nil {
+					s.rec.safe.Unlock()
+				}
+			}
+		}
 		for _, s := range w.bws {
 			_ = s.Stop()
 		}
@@ -874,6 +898,10 @@ func c04Exec(raw json.RawMessage) Result {
 		}
 		var calls [][]byte
 		if s.rec != nil {
+			if s.rec.atLogSync >= 0 && s.rec.atLogSync < len(s.rec.stream) {
+				fail("C04:sync-left-branch-unflushed", "branch %d (%s) sink %d: %d of %d bytes reached the sink only after Logger.Sync had returned (all goroutines had finished): Sync did not flush this branch",
+					s.b, op.Cfg.Br[s.b].Sink, s.j, len(s.rec.stream)-s.rec.atLogSync, len(s.rec.stream))
+			}
 			calls = s.rec.calls
 			if !bytes.Equal(bytes.Join(calls, nil), s.rec.stream) {
 				fail("C04:torn-line", "branch %d sink %d: the bytes that arrived differ from the bytes handed to Write at call time (a line changed or was interleaved while the sink was writing it)", s.b, s.j)
